@@ -1,13 +1,24 @@
 (** C05 — marker text round trip (Display / serialize then parse), and the DNF.
 
-    Proved: a diagram is the disjunction of its root-to-TRUE paths ([paths_sem]) - the structure that
-    [collect_dnf] walks.  The per-edge encodings of ranges as comparison expressions and the heuristic
-    simplifier of src/marker/simplify.rs are NOT modelled; instead every DNF / text the crate renders in the
-    check is recompiled with the proved operations ([compile], C01/C02) and must give back the identical
-    diagram (canonicity, C03): a per-instance validation, not a universal theorem about the simplifier. *)
+    The DNF printer of src/marker/simplify.rs is modelled (Marker/DnfModel.v: [collect_edges],
+    [range_inequality], [star_range_inequality], [release_only_specifiers] with pep440's
+    [from_release_only_bounds], [MarkerOperator::from_bounds], [collect_dnf], [is_negation] with both
+    negation tables, [simplify] loop for loop, [to_dnf]) and proved to denote the marker, for every
+    well-formed diagram whose version cuts are final releases and which is not TRUE (the crate tests
+    [is_true] first and renders nothing): [C05_to_dnf_sem]; recompiling the clauses with the proved
+    operations evaluates like the marker ([C05_to_dnf_recompile]) and, by canonicity, IS the marker
+    ([C05_to_dnf_identity], density proviso of C03).  Every diagram the parser builds qualifies
+    ([C05_compiled]).  The clause simplifier by itself is NOT sound for all inputs: it compares versions
+    modulo trailing zeros while `V.*`, `~= V` and in-lists depend on the number of segments
+    ([C05_simplify_unsound_in_general]: a DNF no path collection ever produces); it is sound on what
+    [collect_dnf] produces ([C05_simplify_plain]).
+    Text: the rendering of one comparison and the re-parse are the subject of C01 (text acceptance),
+    C17 (typed dispatch) and of the per-case round trip in the check; PEP 440 version text is an oracle. *)
 From Coq Require Import List Bool NArith.
-From PV Require Import Base.Order Base.CutDef DD.DDModel DD.DDBasics DD.DDPaths Marker.Concrete.
+From PV Require Import Base.Order Base.CutDef DD.DDModel DD.DDBasics DD.DDWf DD.DDPaths Marker.Concrete Marker.Expr Marker.Density Marker.Sem508
+  Marker.DnfModel Marker.DnfProofs.
 Import ListNotations.
+Open Scope N_scope.
 
 Theorem C05_paths : forall (r : mvaluation) (t : mdd), sorted t -> sat r (paths t) = eval r t.
 Proof. exact paths_sem. Qed.
@@ -16,5 +27,41 @@ Proof. exact paths_sem. Qed.
 Theorem C05_constants : paths (Leaf false : mdd) = [] /\ paths (Leaf true : mdd) = [[]].
 Proof. split; reflexivity. Qed.
 
+(** the clauses returned by to_dnf() denote the marker *)
+Theorem C05_to_dnf_sem : forall (pv pfv : N) (en : env) (extras : list str) (t : mdd),
+  wfm t -> renderable_dd pv t = true -> t <> Leaf true ->
+  eval_dnf pv pfv en extras (to_dnf t) = m_eval en extras t.
+Proof. exact to_dnf_sem. Qed.
+
+(** ... for every valuation of the diagram variables, through the proved operations ... *)
+Theorem C05_to_dnf_recompile : forall (pv pfv : N) (t : mdd), wfm t -> renderable_dd pv t = true -> t <> Leaf true ->
+  forall ro : mvaluation, eval ro (recompile_dnf pv pfv (to_dnf t)) = eval ro t.
+Proof. exact to_dnf_roundtrip_sem. Qed.
+
+(** ... and as the identical canonical diagram *)
+Theorem C05_to_dnf_identity : forall (pv pfv : N) (t : mdd), wfm t -> renderable_dd pv t = true -> t <> Leaf true ->
+  nice_pair (recompile_dnf pv pfv (to_dnf t)) t -> recompile_dnf pv pfv (to_dnf t) = t.
+Proof. exact to_dnf_roundtrip_id. Qed.
+
+(** every marker the parser builds is in scope *)
+Theorem C05_compiled : forall (pv pfv : N) (a : mast) (en : env) (extras : list str), pfv <> pv -> compile pv pfv a <> Leaf true ->
+  eval_dnf pv pfv en extras (to_dnf (compile pv pfv a)) = m_eval en extras (compile pv pfv a).
+Proof. exact C05_to_dnf. Qed.
+
+(** the clause simplifier: sound on plain terms (what collect_dnf produces) ... *)
+Theorem C05_simplify_plain : forall (pv pfv : N) (en : env) (extras : list str) (d : dnf), plain_dnf d ->
+  eval_dnf pv pfv en extras (simplify d) = eval_dnf pv pfv en extras d.
+Proof. exact simplify_sem_plain. Qed.
+
 Print Assumptions C05_paths.
 Print Assumptions C05_constants.
+Print Assumptions C05_to_dnf_sem.
+Print Assumptions C05_to_dnf_recompile.
+Print Assumptions C05_to_dnf_identity.
+Print Assumptions C05_compiled.
+Print Assumptions C05_simplify_plain.
+
+(** ... but not on arbitrary clause lists (witnesses by computation in Marker/DnfProofs.v) *)
+Check simplify_unsound_star_negation.
+Check simplify_unsound_tilde_equality.
+Check simplify_unsound_in_equality.
